@@ -3,7 +3,7 @@
    Executable, no proofs in here.  The MAC is a Section variable (oracle), the
    source of challenge bytes (os.urandom) is an argument. *)
 From Coq Require Import ZArith List Bool.
-From BV Require Import Lib.Cases Lib.AuthBase.
+From BV Require Import Lib.Cases Lib.AuthBase Lib.AuthKey.
 Import ListNotations.
 Open Scope Z_scope.
 
@@ -150,3 +150,30 @@ Definition check_case (c : case) : Z :=
   if negb (opt_eqb obs_outcome_eqb ml il && opt_eqb obs_outcome_eqb mc ic) then 2
   else if negb (urandom_ok ml nl && urandom_ok mc nc) then 2
   else if opt_eqb obs_eqb ml il && opt_eqb obs_eqb mc ic then 0 else 1.
+
+(* ------------------------------------------------------------------ *)
+(* correspondence of the key normalisation Lib/AuthKey.norm (the notion of "same key"
+   of C18_iff_same_normalised_key) with the real hmac.
+
+   A case: the block size of the hash the code names (hashlib's block_size), the hash as
+   a finite table key |-> digest computed by the real hashlib (only keys longer than the
+   block are looked up), the two keys, what CPython's hmac.py normalisation gives for
+   them, and -- when the two keys were run against each other by the real
+   Listener.accept / Client -- whether both sides were handed a connection. *)
+Definition norm_case :=
+  (Z * list (bytes * bytes) * (bytes * bytes) * (bytes * bytes) * option bool)%type.
+
+(* 0 = agree; 2 = the real endpoints accepted each other although the normalised keys
+   differ, or refused each other although they are equal (the property observable);
+   1 = the normalised key itself differs from what hmac.py computes *)
+Definition check_norm_case (c : norm_case) : Z :=
+  let '(b, ht, (kl, kc), (pl, pc), acc) := c in
+  let h := hash_of_table ht in
+  let nl := norm (Z.to_nat b) h kl in
+  let nc := norm (Z.to_nat b) h kc in
+  match acc with
+  | Some a => if Bool.eqb a (bytes_eqb nl nc)
+              then (if bytes_eqb nl pl && bytes_eqb nc pc then 0 else 1)
+              else 2
+  | None => if bytes_eqb nl pl && bytes_eqb nc pc then 0 else 1
+  end.
